@@ -108,6 +108,7 @@ def gen_refs(rng):
         "col": rng.choice([1, 2]),
         "two_members": rng.random() < 0.5,
         "selfref": rng.random() < 0.4,
+        "anon": rng.random() < 0.25,
         "names": names,
         # the file the READER scans may have its columns in another order: a reference names a column of G's data, not of the reader's
         "reader_layout": rng.choice(["same", "same", "permuted"]),
@@ -135,7 +136,7 @@ def gen_replay(rng):
         "members": members,
         "ops": opsl,
         "target": rng.randrange(k),
-        "prefix_len": rng.choice([4, 4, 10, 13, 19]),
+        "prefix_len": rng.choice([0, 4, 4, 10, 13, 19]),  # 0: the bare form $g.results.:last.<id>
         "start_hour": rng.choice([9, 11, 12, 23]),
     }
 
@@ -410,13 +411,19 @@ def _refs(sc, out, w):
     # with two members a header reference must name the member (the library documents references as single-path)
     by_id = sc["by_id"] or two
     hname = (sc.get("names") or ["h1", "h2"])[col - 1]
-    ref_h = f"$G.headers.{hname}.g0" if by_id else f"$G.headers.{hname}"
+    anon = bool(sc.get("anon")) and not sc.get("selfref")
+    if anon:
+        # members without an identity are known by their position in the group
+        for m in gms:
+            m["id"] = None
+    n0, n1 = ("0", "1") if anon else ("g0", "g1")
+    ref_h = f"$G.headers.{hname}.{n0}" if by_id else f"$G.headers.{hname}"
     cs = ops.new_csvpaths()
     with ops.quiet():
         for fi in range(len(sc["files"])):
             cs.file_manager.add_named_file(name=f"f{fi}", path=f"src/f{fi}.csv")
         cs.paths_manager.add_named_paths(name="G", paths=[gen.render(m) for m in gms])
-        reader = f"~id:r0~ $[*][ @a = $G.variables.v  @b = $G.variables.t.k  @n = $G.variables.n  @sl = $G.variables.s  @bj = $G.variables.t.j  @tw = $G.variables.t  @h = {ref_h}" + (f"  @w = $G.variables.w  @n2 = $G.variables.n2  @h1 = $G.headers.{hname}.g1" if two else "") + " ]"
+        reader = f"~id:r0~ $[*][ @a = $G.variables.v  @b = $G.variables.t.k  @n = $G.variables.n  @sl = $G.variables.s  @bj = $G.variables.t.j  @tw = $G.variables.t  @h = {ref_h}" + (f"  @w = $G.variables.w  @n2 = $G.variables.n2  @h1 = $G.headers.{hname}.{n1}" if two else "") + " ]"
         cs.paths_manager.add_named_paths(name="R", paths=[reader])
     reader_name = f"f{sc['reader_file']}"
     if sc.get("reader_layout") == "permuted":
@@ -489,6 +496,7 @@ def _refs(sc, out, w):
     out.nontrivial = True
     out.probe("reference after the group ran more than once", len(sc["runs"]) > 1)
     out.probe("reference into a group of two members", two)
+    out.probe("header reference to a member known only by its position", anon and by_id)
     out.probe("referenced group whose last member reads its own group's variables mid-run", two and bool(sc.get("selfref")))
     out.probe("reference to a variable that two members set to different values", two and len(set(map(str, n_of))) > 1 if two else False)
     out.probe("header reference to a digit-only header name", hname.isdigit())
